@@ -145,7 +145,9 @@ def gen_history(rng, n, cell, length):
 def _py_key(kt, n):
     body = kt[1:]
     if kt[0] == "i":
-        return int(body)
+        # the same index as a Python int or as a numpy integer scalar (what np.argmin / rng.integers / iterating an array hand out)
+        v = int(body)
+        return [v, np.int64(v), np.int32(v)][(v + n) % 3]
     if kt[0] == "s":
         a, b, c = body.split(",")
         f = lambda v: None if v == "_" else int(v)
